@@ -1,6 +1,7 @@
 import LhasaV.Lemmas.ReaderLedger
 import LhasaV.Props.C17
 import LhasaV.Lemmas.CrcBurst
+import LhasaV.Lemmas.MacProps
 /-!
 # C07 — a member is reported good only if its bytes match the recorded length and CRC-16
 -/
@@ -47,6 +48,37 @@ theorem truncation_bad {s : St} {c : HObj} {d : Dec} {info : Nat × Nat × Nat}
 theorem check_dir {s : St} {c : HObj} (ht : s.currType = .normal) (hc : s.curr = some c)
     (hm : c.h.method = "-lhd-".toUTF8.toList) : check s = ((true, []), s) :=
   Reader.check_dir ht hc hm
+
+/-- **Every member, MacBinary pass-through included** (no hypothesis on the OS type): the verdict of
+`lha_reader_check` is good IFF the complete output of the member's decoder (for a MacLHA member:
+the whole stored container — header, forks, padding — which the pass-through decodes to its end
+before the verdict) has the recorded length and CRC-16. -/
+theorem check_iff_all {s : St} {c : HObj} {d : Dec} {info : Nat × Nat × Nat}
+    (ht : s.currType = .normal) (hc : s.curr = some c)
+    (hm : c.h.method ≠ "-lhd-".toUTF8.toList)
+    (hd : decoderFor (methodName c.h) = some d) (hi : decoderInfo (methodName c.h) = some info) :
+    (check s).1.1 = true ↔
+      ((MacProps.innerBytes s c d).length = c.h.length ∧
+       (Crc.buf 0 (MacProps.innerBytes s c d)).toNat = c.h.crc) :=
+  MacProps.check_iff_inner ht hc hm hd hi
+
+/-- the same for extraction when the output file could be opened -/
+theorem extract_iff_all {s : St} {c : HObj} {d : Dec} {info : Nat × Nat × Nat}
+    (ht : s.currType = .normal) (hc : s.curr = some c)
+    (hm : c.h.method ≠ "-lhd-".toUTF8.toList)
+    (hd : decoderFor (methodName c.h) = some d) (hi : decoderInfo (methodName c.h) = some info) :
+    (extract s true).1.1 = true ↔
+      ((MacProps.innerBytes s c d).length = c.h.length ∧
+       (Crc.buf 0 (MacProps.innerBytes s c d)).toNat = c.h.crc) :=
+  MacProps.extract_iff_inner ht hc hm hd hi
+
+/-- any truncation is reported as a failure, Mac member or not -/
+theorem truncation_bad_all {s : St} {c : HObj} {d : Dec} {info : Nat × Nat × Nat}
+    (ht : s.currType = .normal) (hc : s.curr = some c)
+    (hm : c.h.method ≠ "-lhd-".toUTF8.toList)
+    (hd : decoderFor (methodName c.h) = some d) (hi : decoderInfo (methodName c.h) = some info)
+    (hlt : (MacProps.innerBytes s c d).length < c.h.length) : (check s).1.1 = false :=
+  MacProps.truncation_bad_inner ht hc hm hd hi hlt
 
 /-- **Burst errors.** For EVERY start value, every byte string and every non-zero error pattern of the
 same length whose set bits span at most 16 consecutive bit positions (in the order the CRC consumes
